@@ -88,7 +88,7 @@ def plan(tier, seed):
         off = int(r.integers(0, 8))
         combos = [c for c in combos if (c + off) % 8 == 0]
     else:
-        nb, per, nenum = 150, 200, 48
+        nb, per, nenum = 60, 200, 48
     out = [{'id': f'h{k}', 'mode': 'hist', 'k': k, 'n': per}
            for k in range(nb)]
     out += [{'id': f'e{k}', 'mode': 'enum', 'k': 5000+k,
